@@ -255,6 +255,20 @@ fn gen_world(t: &mut Tape) -> WorldSpec {
         pre.extend_from_slice(&source);
         source = pre;
     }
+    // the file ends in a word that cannot begin a statement, with or without
+    // a line end after it (an error at the very end of the text: there is no
+    // next token to point at)
+    if t.chance(1, 25) && source_kind != "parse error on a chosen line" {
+        if !source.is_empty() && *source.last().unwrap() != b'\n' {
+            source.push(b'\n');
+        }
+        source.extend_from_slice(
+            (*t.pick(&[
+                "\"dangling\"", "42", "plus", ",", "with", "into", "\"dangling\"\n", "42\n", "is", "Put", "Say", "Say \"x\" plus",
+            ]))
+            .as_bytes(),
+        );
+    }
     // a said value with a line break in it and a long run of text after the
     // last break (how a line-buffered standard output treats it)
     if t.chance(1, 25) {
@@ -508,6 +522,10 @@ fn gen_world(t: &mut Tape) -> WorldSpec {
 /// What the library does with the same file contents and standard input.
 enum LibRef {
     ParseError(String),
+    /// the parser returned an error in the ordinary way, but turning that
+    /// error into text panics: there is a parse error to report, with no
+    /// reference text for it
+    ParseErrorWithoutText,
     Exec { out: Vec<u8>, error: Option<String> },
     Tree(String),
     Lint(Vec<(u32, String, Vec<String>)>),
@@ -525,7 +543,10 @@ fn library(w: &WorldSpec) -> Result<LibRef, String> {
     guarded(move || {
         rrss::verif_seams::set_hash_seed(seed);
         match rrss::frontend::parser::parse(source) {
-            Err(e) => LibRef::ParseError(e.to_string()),
+            Err(e) => match std::panic::catch_unwind(std::panic::AssertUnwindSafe(|| e.to_string())) {
+                Ok(text) => LibRef::ParseError(text),
+                Err(_) => LibRef::ParseErrorWithoutText,
+            },
             Ok(program) => match sub {
                 Sub::Exec => {
                     let mut out = Vec::new();
@@ -643,6 +664,16 @@ fn judge(w: &WorldSpec, lib: &Result<LibRef, String>, sep: &ProcResult, shared: 
     let stderr = strip_sgr(&sep.stderr);
     let stdout_plain = strip_sgr(&sep.stdout);
     match lib {
+        LibRef::ParseErrorWithoutText => {
+            // (R7 above: the tool has not died of it) R2 a parse error is
+            // reported as such, and nothing was run
+            if !contains(&stderr.to_ascii_lowercase(), b"parse error") {
+                return Some(("C20.R2-error-on-stderr", "the program does not parse, but nothing prefixed as a parse error is on standard error".into()));
+            }
+            if w.sub == Sub::Exec && !sep.stdout.is_empty() {
+                return Some(("C20.R1-exec-stdout", format!("the program does not parse but {} bytes were written to standard output", sep.stdout.len())));
+            }
+        }
         LibRef::ParseError(msg) => {
             // R2 reported on stderr, prefixed as a parse error, nothing on stdout
             match find_from(&stderr, msg.as_bytes(), 0) {
@@ -1004,6 +1035,7 @@ impl Property for C20 {
         match &lib {
             Err(_) => stats.inc("count.skipped_library_panics_or_not_utf8"),
             Ok(LibRef::ParseError(_)) => stats.inc("probe.parse_error"),
+            Ok(LibRef::ParseErrorWithoutText) => stats.inc("probe.parse_error_whose_text_cannot_be_rendered"),
             Ok(LibRef::Exec { out, error }) => {
                 if error.is_some() && !out.is_empty() {
                     stats.inc("probe.runtime_error_after_output");
@@ -1108,6 +1140,7 @@ impl Property for C20 {
                     match &lib {
                         Err(e) => J::s(format!("skipped: {}", e)),
                         Ok(LibRef::ParseError(m)) => J::s(format!("ParseError: {}", m)),
+                        Ok(LibRef::ParseErrorWithoutText) => J::s("ParseError (rendering its text panics)"),
                         Ok(LibRef::Exec { out, error }) => J::obj(vec![
                             ("output", J::S(render_bytes(out))),
                             ("error", error.clone().map_or(J::Null, J::S)),
